@@ -81,7 +81,7 @@ func drawSimpleObjs(t *sim.Tape, n int, inst string) []simpleObj {
 	return out
 }
 
-var injectableCodes = []codes.Code{codes.Unavailable, codes.Internal, codes.PermissionDenied, codes.ResourceExhausted, codes.DeadlineExceeded}
+var injectableCodes = []codes.Code{codes.Unavailable, codes.Internal, codes.PermissionDenied, codes.ResourceExhausted, codes.DeadlineExceeded, codes.Canceled}
 
 func namesReplica(err error) bool {
 	m := strings.ToLower(err.Error())
